@@ -732,7 +732,12 @@ func callBuiltin(caller *frame, callpos token.Pos, fn *ssa.Builtin, args []value
 		case symstr:
 			return append(args[0].([]value), strToBytes(s)...)
 		}
-		return append(args[0].([]value), args[1].([]value)...)
+		// the appended elements are copies: struct and array elements must not share their cells with the source
+		dst := args[0].([]value)
+		for _, e := range args[1].([]value) {
+			dst = append(dst, copyVal(e))
+		}
+		return dst
 
 	case "copy":
 		src := args[1]
@@ -746,7 +751,20 @@ func callBuiltin(caller *frame, callpos token.Pos, fn *ssa.Builtin, args []value
 		case symstr:
 			src = strToBytes(s)
 		}
-		return copy(args[0].([]value), src.([]value))
+		dstS, srcS := args[0].([]value), src.([]value)
+		n := len(dstS)
+		if len(srcS) < n {
+			n = len(srcS)
+		}
+		if n > 0 && len(srcS) > 0 && &dstS[0] == &srcS[0] {
+			return n
+		}
+		tmp := make([]value, n)
+		for k := 0; k < n; k++ {
+			tmp[k] = copyVal(srcS[k])
+		}
+		copy(dstS, tmp)
+		return n
 
 	case "close":
 		chanClose(caller, args[0])
